@@ -10,7 +10,7 @@ RULE = ('same input stream as C01 (exhaustive quarter-LSB sweeps of formats with
         'for every non-overflowing element the direction / bound / tie-parity relation of its mode is evaluated on the stored code; idempotence: every code of small formats '
         'and random codes of large ones re-stored in all ten mode pairs (also x(x())); monotonicity: sorted inputs under saturate must give sorted codes. '
         'Non-trivial = the element is not representable (rounding acted); distinct by full input.')
-ASSUMPTIONS = ['"does not overflow" is decided conservatively: floor and ceiling of the exactly scaled input are both inside the range']
+ASSUMPTIONS = ['"does not overflow" is decided per mode with elementary functions: floor / ceil / trunc of the exactly scaled input inside the range (both neighbours for around)']
 
 def relation_ok(r, c, v, nf):
     """contract of mode r for stored code c and exact input v (Fractions)"""
@@ -29,6 +29,9 @@ def relation_ok(r, c, v, nf):
         return True, ''
     return False, 'unknown mode'
 
+def res_failed_here(res, c):
+    return bool(res.failures) and res.failures[-1]['case'].get('vals') is not None and res.failures[-1]['case'].get('_id') == id(c)
+
 def check_relations(cases, res, stratum):
     for c in cases:
         io = S.run_impl_store(c)
@@ -36,16 +39,25 @@ def check_relations(cases, res, stratum):
         lo, hi = S.fmt_bounds(s, nw)
         if 'exc' in io:
             res.fail(c, 'C05: storing an in-domain value raised %s' % io['exc'], got=io.get('msg')); continue
-        nontriv = False
+        nontriv = False; all_inside = True; n_inside = 0
         for j, (v, code) in enumerate(zip(c['vals'], io['codes'])):
             v = Fraction(v); sc = v * Fraction(2) ** nf
-            if not (lo <= math.floor(sc) and math.ceil(sc) <= hi): continue
+            # "does not overflow": the integer(s) the mode may legitimately produce are inside the range
+            if r == 'floor': cand = [math.floor(sc)]
+            elif r == 'ceil': cand = [math.ceil(sc)]
+            elif r in ('trunc', 'fix'): cand = [math.trunc(sc)]
+            else: cand = [math.floor(sc), math.ceil(sc)]
+            if not all(lo <= t <= hi for t in cand): continue
+            all_inside = all_inside and True
+            n_inside += 1
             if sc.denominator != 1: nontriv = True
             ok, why = relation_ok(r, code, v, nf)
             if not ok:
                 one = dict(c); one['vals'] = [c['vals'][j]]
                 res.fail(one, 'C05: rounding contract violated (%s)' % why, expected='relation holds', got={'code': code, 'v': str(v)})
                 break
+        if n_inside == len(c['vals']) and io['status'][:2] != (False, False) and not res_failed_here(res, c):
+            res.fail(c, 'C05: overflow/underflow flag raised although no element overflows', expected=(False, False), got=io['status'][:2])
         res.count(stratum, key=(s, nw, nf, r, c['o'], c['carrier'], c['route'], tuple(c['vals'])), nontrivial=nontriv, n=len(c['vals']))
         res.sample({k: c[k] for k in ('s', 'nw', 'nf', 'r', 'o', 'carrier', 'route')} | {'vals': c['vals'][:5], 'codes': io['codes'][:5]})
         # monotonicity under saturate on the whole (sorted) array, overflowing values included
